@@ -521,6 +521,9 @@ func (r *rewriter) post(c *astutil.Cursor) bool {
 			if n.Sel.Name == "Pool" {
 				c.Replace(r.sim("Pool"))
 				rep.Rewrites["pool"]++
+			} else if n.Sel.Name == "Once" {
+				c.Replace(r.sim("Once"))
+				rep.Rewrites["once"]++
 			}
 		case "time":
 			switch n.Sel.Name {
@@ -757,8 +760,8 @@ func (r *rewriter) rewriteCall(c *astutil.Cursor, n *ast.CallExpr) {
 		rep.Rewrites["blocking"]++
 	case pkg == "sync" && recv == "WaitGroup" && fn == "Go":
 		r.unseamed(n, "WaitGroup.Go starts an untracked goroutine")
-	case pkg == "sync" && recv == "Pool":
-		// type is replaced by verifsim.Pool, which yields itself
+	case pkg == "sync" && (recv == "Pool" || recv == "Once"):
+		// the type is replaced by its verifsim counterpart, which yields itself
 	case pkg == "sync" && recv != "":
 		n.Fun = r.call(r.wrapper(n), r.site(n, "sync."+recv+"."+fn), n.Fun)
 		rep.Rewrites["sync"]++
